@@ -31,16 +31,18 @@ impl PartialEq for Color {
 impl Ord for Color {
     fn cmp(&self, other: &Self) -> std::cmp::Ordering {
         match (self, other) {
-            (Color::Hsla(a), Color::Hsla(b)) => a.partial_cmp(b).unwrap(),
-            (Color::Hsla(a), Color::Hwba(b)) => {
-                a.partial_cmp(&Hsla::from(b)).unwrap()
-            }
-            (Color::Hwba(a), Color::Hsla(b)) => {
-                Hsla::from(a).partial_cmp(b).unwrap()
-            }
+            (Color::Hsla(a), Color::Hsla(b)) => cmp_hsla(a, b),
+            (Color::Hsla(a), Color::Hwba(b)) => cmp_hsla(a, &Hsla::from(b)),
+            (Color::Hwba(a), Color::Hsla(b)) => cmp_hsla(&Hsla::from(a), b),
             (a, b) => a.to_rgba().cmp(&b.to_rgba()),
         }
     }
+}
+/// Compare hsla values, falling back to rgba (which has a total
+/// order) when a channel is NaN and the hsla values are unordered.
+fn cmp_hsla(a: &Hsla, b: &Hsla) -> std::cmp::Ordering {
+    a.partial_cmp(b)
+        .unwrap_or_else(|| Rgba::from(a).cmp(&Rgba::from(b)))
 }
 impl PartialOrd for Color {
     fn partial_cmp(&self, other: &Self) -> Option<std::cmp::Ordering> {
